@@ -112,6 +112,10 @@ class Monitor:
                        f'{kind} dependency {dep.name} had status {status!r}')
             elif status == TaskStatus.DONE:
                 ret = self.returned.get(dep.name)
+                if ret is not None and not self.exec_run.get(dep.name):
+                    # finished in an earlier run: only its own entry is
+                    # carried over (DONE entries are merged, nothing else)
+                    ret = {k: v for k, v in ret.items() if k == dep.name}
                 if ret is not None:
                     with self.lock:
                         self.payload_reads += 1
@@ -142,6 +146,9 @@ class Monitor:
                                    'l': [exec_no, 2]}}}
             if task.outdir:
                 upd[name]['output_dir'] = task.outdir
+            # updates are arbitrary mappings: also a key that is not the
+            # task's own name
+            upd['extra of ' + name] = {'v': exec_no, 'n': {'m': name}}
             self.returned[name] = copy.deepcopy(upd)
             return upd, TaskStatus.DONE
         if kind == 'ok_none':
@@ -952,10 +959,10 @@ def gen_dag(rng, ntasks, p_hard=0.3, p_soft=0.15):
     return {'tasks': order, 'hard': hard, 'soft': soft}
 
 
-def gen_wide(rng, workers):
-    '''Many tasks that are ready at the same time (more than 100 per
-    worker), a few of them with a common dependent.'''
-    ntasks = 101 * workers + rng.randint(2, 9)
+def gen_wide(rng, workers, per_worker=101):
+    '''Many tasks that are ready at the same time (more than `per_worker`
+    per worker), a few of them with a common dependent.'''
+    ntasks = per_worker * workers + rng.randint(2, 9)
     names = [f't{i}' for i in range(ntasks)]
     last = names[-1]
     hard = {last: rng.sample(names[:-1], 3)}
